@@ -4,6 +4,7 @@
   Expect are in `Props/C15.lean`).
 -/
 import MicroHttp.Props.C15
+import MicroHttp.Proofs.HeaderFold
 namespace MicroHttp.C15
 open MicroHttp
 
@@ -17,7 +18,7 @@ def acceptOf (line : List Byte) : Option MediaType :=
 theorem accept_last_wins (h0 h : Headers) (ls : List (List Byte))
     (hne : ∀ l ∈ ls, l ≠ []) (hf : Headers.foldLines h0 ls = .ok h) :
     h.accept = ((ls.reverse.findSome? acceptOf).getD h0.accept) := by
-  sorry
+  exact HeaderFold.accept_last_wins h0 h ls hne hf
 
 /-- a line asks for chunked transfer encoding -/
 def isChunkedLine (line : List Byte) : Bool :=
@@ -30,7 +31,7 @@ def isChunkedLine (line : List Byte) : Bool :=
 theorem chunked_any (h0 h : Headers) (ls : List (List Byte))
     (hne : ∀ l ∈ ls, l ≠ []) (hf : Headers.foldLines h0 ls = .ok h) :
     h.chunked = (h0.chunked || ls.any isChunkedLine) := by
-  sorry
+  exact HeaderFold.chunked_any h0 h ls hne hf
 
 /-- the custom entry a single line contributes: trimmed name and value, if the name is not recognised -/
 def customOf (line : List Byte) : Option (List Byte × List Byte) :=
@@ -51,7 +52,7 @@ theorem custom_last_wins (h0 h : Headers) (ls : List (List Byte))
       (match ls.reverse.findSome? (customValueFor name) with
        | some v => some v
        | none => lookupCustom h0.custom name) := by
-  sorry
+  exact HeaderFold.custom_last_wins h0 h ls hne hf name
 
 /-- An accepted block leaves every recognised field that no line of it touches unchanged: lines
     only ever change the field their name designates. -/
@@ -61,6 +62,6 @@ theorem untouched_fields (h0 h : Headers) (ls : List (List Byte))
     (ls.all (fun l => (acceptOf l).isNone) → h.accept = h0.accept) ∧
     (ls.all (fun l => !isExpectLine l) → h.expect = h0.expect) ∧
     (ls.all (fun l => !isChunkedLine l) → h.chunked = h0.chunked) := by
-  sorry
+  exact HeaderFold.untouched_fields h0 h ls hne hf
 
 end MicroHttp.C15
